@@ -52,12 +52,19 @@ Section Pad.
                 Ok (p :: rest)
     end.
 
+  (* every boundary word of the completed per-axis mapping is one pad() understands *)
+  Definition words_known (padding : list (string * option bword)) : bool :=
+    forallb (fun p : string * option bword =>
+               match snd p with Some BUnknown => false | _ => true end) padding.
+
   (* xgcm.padding.pad on a grid without face connections.  [boundary_width = None] is
      modelled by [None]. Returns the (possibly unchanged) array. *)
   Definition pad (g : grid A) (t : tensor A) (bw : option (list (string * (nat * nat))))
              (boundary : kw bword) (fill_value : kw A) : res (tensor A) :=
     let padding := complete_kwargs g (@ax_boundary A) boundary in
     let fillv := complete_kwargs g (@ax_fill A) fill_value in
+    (* an unknown boundary word is refused before anything else, padding or not *)
+    if negb (words_known padding) then Err ValueError else
     match bw with
     | None => Ok t
     | Some ws =>
